@@ -752,6 +752,18 @@ impl TypeChecker {
                             });
                         }
 
+                        // The discriminant of an enum is a single byte
+                        if evaluated_variants.len() > 256 {
+                            return Err(self.error_simple(
+                                format!(
+                                    "the enum `{ident}` has {} variants, but an enum can have at most 256 variants",
+                                    evaluated_variants.len(),
+                                ),
+                                "too many variants",
+                                ident.id,
+                            ));
+                        }
+
                         let type_def = TypeDefinition::Enum(
                             TypeName {
                                 name,
